@@ -83,12 +83,23 @@ def generate(rng, tier, idx):
         table['names'] = names
     config = gmvlib.rand_config(rng, names, allow_default=(d <= 3 and table['n'] <= 200))
     ops = _ops_for(rng, d, thorough)
+    if rng.random() < 0.35:
+        # another live model with the same column names but another dependence is conditioned
+        # on the very same values just before the model under test (state shared between
+        # objects would leak from one to the other)
+        k = rng.randrange(len(ops))
+        if ops[k]['op'] == 'sample_cond':
+            t3 = dict(table, seed=rng.randrange(2**31),
+                      pattern=rng.choice(['neg', 'chain', 'star', 'random']))
+            ops.insert(k, {'op': 'bystander', 'table': t3, 'like': dict(ops[k]),
+                           'state': rng.randrange(2**31)})
     if rng.random() < 0.3:
         # history: the same object is fitted again on another table with the same columns and
         # then conditioned on a set it was already conditioned on before the refit
         t2 = dict(table, seed=rng.randrange(2**31),
                   pattern=rng.choice(['random', 'neg', 'chain', 'star']))
         first = [o for o in ops if o['op'] == 'sample_cond'][0]
+        first = dict(first)
         ops.append({'op': 'refit', 'table': t2, 'state': rng.randrange(2**31)})
         ops.append(dict(first, n=rng.choice([8, 50]), reuse=False))
     return {'table': table, 'config': config, 'seed': zoo.rand_seedspec(rng),
@@ -423,6 +434,25 @@ def execute(run):
         if op['op'] == 'app_draw':
             np.random.random(op['k'])
             ctx.faults['F5_foreign_draws'] += 1
+        elif op['op'] == 'bystander':
+            from copulas.multivariate import GaussianMultivariate
+            df3, _r3 = zoo.gen_table(op['table'])
+            like = op['like']
+            cols3 = [c for c in like['cols'] if c < df3.shape[1]]
+            if cols3 and len(cols3) < df3.shape[1]:
+                names3 = [model.columns[c] for c in cols3]
+                # the SAME condition values the model under test is about to receive
+                vals3 = [_value(train_df[nm].to_numpy(), k_, q_)
+                         for nm, k_, q_ in zip(names3, like['kinds'], like['q'])]
+                other = GaussianMultivariate(
+                    **gmvlib.fix_dict_keys(run['config']['ctor'], list(df3.columns)))
+                with sterile(op['state']):
+                    o = outcome(other.fit, df3)
+                    if o[0] == 'ok':
+                        outcome(other.sample, 3, conditions=_container(like, names3, vals3))
+                        outcome(other.sample, 3)
+                ctx.probes['bystander_model_conditioned_on_same_values'] += 1
+                ctx.event('bystander', outcome_class(o))
         elif op['op'] == 'refit':
             df2, _r2 = zoo.gen_table(op['table'])
             with sterile(op['state']):
